@@ -19,7 +19,7 @@ from . import common, coqterm, gen, schemagen
 from .c04 import fresh_schema_name
 from .coqterm import coq_list, coq_string, coq_bool
 
-C12_FILES = ["Properties/C12.v", "Proofs/SchemaProofs.v", "Proofs/SchemaInterfaces.v", "Proofs/Wiring.v", "Proofs/SchemaExtensions.v"]
+C12_FILES = ["Properties/C12.v", "Proofs/SchemaProofs.v", "Proofs/SchemaInterfaces.v", "Proofs/Wiring.v", "Proofs/SchemaExtensions.v", "Proofs/SchemaRoots.v"]
 
 KINDS = [
     (r"is Invalid: the given Type <", "unknown-field-type"),
